@@ -115,7 +115,7 @@ def replay(ctx, case):
 
 
 MANIFEST = dict(
-    text='Proof: the rank used by low-rank preparation (rank logic regenerated from the source every run) is the least power of two >= min(r, effective rank) (C07_rank_spec); the overlap of a state with its Schmidt truncation is the sum of the kept squared coefficients for orthonormal factors (C07_overlap_truncated, any field). Tie: translator + execution against low_rank_approximation; direct evaluation of prepared state and fidelity for every bipartition and rank. Optimality clause: only its arithmetic core is proved (C07_optimal_truncation_partial: weights in [0,1] summing to at most k cannot beat the k largest squared coefficients); the Hilbert-space step (Cauchy-Schwarz and Bessel) producing those weights is not formalised.',
-    note='Modelled, not verified: np.linalg.svd contract; the Cauchy-Schwarz/Bessel step of the optimality clause.',
-    technique='Coq proof (N.log2_up; mathcomp trace algebra) + translator-regenerated rank logic + numpy evaluation',
+    text='Proof: the rank used by low-rank preparation (rank logic regenerated from the source every run) is the least power of two >= min(r, effective rank) (C07_rank_spec); the overlap of a state with its Schmidt truncation is the sum of the kept squared coefficients for orthonormal factors (C07_overlap_truncated, any field). Tie: translator + execution against low_rank_approximation; direct evaluation of prepared state and fidelity for every bipartition and rank. Optimality clause proved in full: any unit state of Schmidt rank <= k has squared overlap with psi at most the sum of the k largest squared Schmidt coefficients (C07_optimal_truncation, via C07_cauchy_schwarz, C07_bessel, C07_topk_bound). Assembly of the circuit: C07_lowrank_assembly, C07_fan_copies / C07_fan_superposition, with a structure monitor on the definition.',
+    note='Modelled, not verified: np.linalg.svd contract (orthonormal factors, sorted non-negative values); the isometry blocks of the circuit (C03).',
+    technique='Coq proof (N.log2_up; mathcomp trace algebra; finite-dimensional Cauchy-Schwarz / Bessel over Coquelicot complex numbers; sparse simulation of the CNOT fan) + translator-regenerated rank logic + numpy evaluation',
     design_ref='DESIGN.md section 4, C07')
